@@ -53,12 +53,13 @@ var cleanKeys = []Obj{
 
 // keys the pinned tree is known to mishandle, one hazard class each
 var dirtyKeys = map[string][]Obj{
-	"ptrnum:big":   {num("big", p70), num("big", "-"+p64)},
-	"ptrnum:ratio": {num("ratio", "1/2"), num("ratio", "-7/3")},
-	"ptrnum:long":  {num("long", "1.5"), num("long", "10.0")},
-	"ptrnum:sbyte": {num("sbyte", "11"), num("sbyte", "-11")},
-	"ptrnum:ubyte": {num("ubyte", "11")},
-	"unhashable:list": {list(fix(1), fix(2)), dot(fix(1), fix(2)), list(str("a"))},
+	"ptrnum:big":            {num("big", p70), num("big", "-"+p64)},
+	"ptrnum:ratio":          {num("ratio", "1/2"), num("ratio", "-7/3")},
+	"ptrnum:long":           {num("long", "1.5"), num("long", "10.0")},
+	"ptrnum:sbyte":          {num("sbyte", "11"), num("sbyte", "-11")},
+	"ptrnum:ubyte":          {num("ubyte", "11")},
+	"unhashable:list":       {list(fix(1), fix(2)), dot(fix(1), fix(2)), list(str("a"))},
+	"unhashable:emptylist":  {{K: "nil", V: "(cdr (list 1))"}, {K: "nil", V: "(list)"}},
 	"unhashable:hash-table": {opq("(make-hash-table)")},
 	"unhashable:octets":     {opq("(coerce \"ab\" 'octets)")},
 }
@@ -72,7 +73,7 @@ var crossPairs = [][2]Obj{
 	{fix(1), num("bit", "1")},
 }
 
-var dirtyNames = []string{"ptrnum:big", "ptrnum:ratio", "ptrnum:long", "ptrnum:sbyte", "ptrnum:ubyte", "unhashable:list", "unhashable:hash-table", "unhashable:octets", "crossrepr"}
+var dirtyNames = []string{"ptrnum:big", "ptrnum:ratio", "ptrnum:long", "ptrnum:sbyte", "ptrnum:ubyte", "unhashable:list", "unhashable:emptylist", "unhashable:hash-table", "unhashable:octets", "crossrepr"}
 
 // hazardOf names what a key set contains that the avoid set keeps out of
 // most histories. Computed from the case itself, not taken from a label.
@@ -84,6 +85,10 @@ func hazardOf(keys []Obj) string {
 			set["ptrnum:"+k.K] = true
 		case "list", "dot":
 			set["unhashable:list"] = true
+		case "nil":
+			if k.V != "" {
+				set["unhashable:emptylist"] = true // the empty list as a list of length 0
+			}
 		case "opq":
 			if strings.Contains(k.V, "make-hash-table") {
 				set["unhashable:hash-table"] = true
@@ -169,6 +174,9 @@ func exhHistory(i, depth int, keys []Obj) Case {
 		switch {
 		case a < nSlots:
 			ops[t] = Op{O: "set", S: a, I: (t + a) % 2, V: 100 + t}
+			if (t+a)%3 == 2 {
+				ops[t].V = 0 // some stores store nil: an entry whose value is nil is an entry
+			}
 		case a < 2*nSlots:
 			ops[t] = Op{O: "rem", S: a - nSlots, I: (t + a + 1) % 2}
 		default:
@@ -603,7 +611,6 @@ func execBig(x *fw.Ctx, c Case) {
 	}
 	x.Observe(map[string]any{"test": c.Test, "keys": c.Ty, "size": n})
 }
-
 
 // ---- execution and the model --------------------------------------------------
 
